@@ -1,12 +1,14 @@
 //! The Adobe RGB (1998) standard.
 
+use core::ops::Mul;
+
 use crate::{
     encoding::{
         lut::{self, adobe::*},
         FromLinear, IntoLinear,
     },
     luma::LumaStandard,
-    num::{Powf, Real},
+    num::{Abs, Powf, Real, Signum},
     rgb::{Primaries, RgbSpace, RgbStandard},
     white_point::{Any, D65},
     Mat3, Yxy,
@@ -101,19 +103,21 @@ impl LumaStandard for AdobeRgb {
 
 impl<T> IntoLinear<T, T> for AdobeRgb
 where
-    T: Real + Powf,
+    T: Real + Powf + Abs + Signum + Mul<Output = T> + Clone,
 {
     fn into_linear(encoded: T) -> T {
-        encoded.powf(T::from_f64(563.0 / 256.0))
+        // The curve is mirrored for negative values, instead of giving NaN.
+        encoded.clone().signum() * encoded.abs().powf(T::from_f64(563.0 / 256.0))
     }
 }
 
 impl<T> FromLinear<T, T> for AdobeRgb
 where
-    T: Real + Powf,
+    T: Real + Powf + Abs + Signum + Mul<Output = T> + Clone,
 {
     fn from_linear(linear: T) -> T {
-        linear.powf(T::from_f64(256.0 / 563.0))
+        // The curve is mirrored for negative values, instead of giving NaN.
+        linear.clone().signum() * linear.abs().powf(T::from_f64(256.0 / 563.0))
     }
 }
 
